@@ -7,7 +7,7 @@ change in modelled code buys a deeper look, it never raises an alarm by itself.
 Run after every commit to /repo (tools/gen_manifest.py does it)."""
 import hashlib, json, os, subprocess
 ROOT = os.path.dirname(os.path.dirname(os.path.abspath(__file__)))
-REPO = "/repo"
+REPO = os.environ.get("VERIF_REPO", "/repo")     # a builder agent's clone: VERIF_REPO=<clone> tools/gen_manifest.py
 
 def main():
     head = subprocess.check_output(["git", "-C", REPO, "rev-parse", "HEAD"]).decode().strip()
